@@ -16,7 +16,7 @@ RULE = ("random histories (1-25 steps) over: ds[k]=array (new/replacing; fewer/m
         "dim perturbed / permuted / truncated; position of that dim and number of new dims before/after it enumerated in block 'reject'), "
         "del, rename via ds.axes[d].name / a variable's axis / ds.dims / set_axis(name=) / rename_axes, relabel via ds.axes[d][i] / a variable's "
         "axis / ds.<dim>= / set_axis(values) / ds.axes[d]=Axis, rename_keys, direct ds.axes.append; start from Dataset() or Dataset(a=..,b=..) "
-        "with differing labels. class = (step kinds seen as a set, start form, length bucket) plus per rejected step (position, new before, new after)")
+        "with differing labels; axes re-assigned with the labels they already have. class = (step kinds seen as a set, start form, length bucket) plus per rejected step (position, new before, new after)")
 ANCHORS = ["dataset.__setitem__", "dataset.__delitem__", "dataset._maybe_delete_axes", "dataset.set_axis", "dataset.rename_keys", "dataset.rename_axes"]
 # entry points the workload calls itself; the other anchors are helpers behind them (counted as evidence only)
 ANCHORS_REQUIRED = ["dataset.__setitem__", "dataset.__delitem__", "dataset.set_axis", "dataset.rename_keys", "dataset.rename_axes"]
